@@ -341,7 +341,8 @@ class Signal(np.lib.mixins.NDArrayOperatorsMixin):
         :py:func:`dask.array.rechunk`.
         """
         if chunks is None:
-            chunks = (-1,) + ("auto",) * (self.ndim - 1)
+            auto = "auto" if len(self) else -1  # dask cannot auto-chunk an empty array
+            chunks = (-1,) + (auto,) * (self.ndim - 1)
 
         x = dask.array.asanyarray(self.data)
         return type(self).like(self, x.rechunk(chunks, **kwargs))
